@@ -43,7 +43,9 @@ THEOREMS = {
                                   "Tr.singleReverse_eq0", "Tr.before_start_early", "Tr.before_start_late", "Tr.fwdIndex_spec", "Tr.revIndex_spec", "Tr.C18_index_safe", "Tr.C07_scan_start",
                                   "Tr.C12_departure", "Tr.C12_arrival", "Tr.C12_map_departure", "Tr.C12_map_arrival", "Tr.C12_departure_query", "Tr.C12_arrival_query",
                                   "Tr.C12_accessibility_departure", "Tr.C12_accessibility_arrival", "Tr.AdmFwd.shift", "Tr.AdmRev.shift", "Tr.Reach.shift", "Tr.RReach.shift",
-                                  "Tr.conns_shift", "Tr.wfData_shift", "Tr.nv_shift", "Tr.nv_shift_maps", "Tr.nv_results"]),
+                                  "Tr.conns_shift", "Tr.wfData_shift", "Tr.C12_departure_reason", "Tr.C12_arrival_reason", "Tr.C12_map_status_departure", "Tr.C12_map_status_arrival",
+                                  "Tr.CaughtF.shift", "Tr.CaughtR.shift", "Tr.allNodes_ok_iff_forward", "Tr.allNodes_ok_iff_reverse",
+                                  "Tr.nv_shift", "Tr.nv_shift_maps", "Tr.nv_shift_nonneg", "Tr.nv_nonneg", "Tr.nv_results"]),
     "C16": ("TrVerif.Props.C16", ["Tr.C16_connections", "Tr.C16_reverse_footpaths", "Tr.C16_sorted_lists", "Tr.C16_trip_lists", "Tr.C16_scenario_set"]),
     "C13": ("TrVerif.Props.C13", ["Tr.C13_history_independent", "Tr.C13_cache_kind_irrelevant", "Tr.C13_structure"]),
     "C14": ("TrVerif.Props.C14", ["Tr.C14_interleavings", "Tr.C14_progress", "Tr.C14_structure"]),
@@ -173,11 +175,14 @@ _reg("C12", "PROOF (partial, two halves): (1) Tr.C12_index_transparent_route / _
      "by ANY integer k moves exactly the characterised values by k and keeps the status: Tr.C12_departure - departure-time route queries on the domain of C03/C05: a route is returned on one side "
      "iff on the other, arrivalTime and departureTime move by exactly k; Tr.C12_arrival - arrival-time queries on the domain of C04: status kept and departureTime moves by exactly k when the "
      "moved answer still leaves at or after 0:00 (the property's 'both answers stay in range'); Tr.C12_map_departure / Tr.C12_map_arrival - accessibility maps on the domains of C08 / C09: the "
-     "same stops, each time moved by exactly k, same travel times, same stop count. This half does not look at the scans: the inductive specifications are translation invariant (Tr.Reach.shift, "
+     "same stops, each time moved by exactly k, same travel times, same stop count; STATUS AND REASON: Tr.C12_departure_reason - a failed departure-time query fails on the shifted side with the "
+     "same reason; Tr.C12_arrival_reason - likewise for arrival-time queries, unless the shifted side returns a route that moved back would leave before 0:00 (then the answers are not both in "
+     "range); Tr.C12_map_status_departure / _arrival - an accessibility map is returned on one side iff on the other (the reason classification of C07 and the termination theorems make the "
+     "outcome a function of translation-invariant conditions: router tables, and 'some connection is caught': Tr.CaughtF.shift, Tr.CaughtR.shift). This half does not look at the scans: the inductive specifications are translation invariant (Tr.Reach.shift, "
      "Tr.RReach.shift, Tr.AdmFwd.shift, Tr.AdmRev.shift; Tr.conns_shift: the connections of the shifted records are the shifted connections) and both answers are optimal among and attained "
      "by admissible journeys; hypotheses on the shifted side are only 'clock values stay in range' (Tr.ShiftInRange; the structural ones are derived, Tr.wfData_shift etc.). NOT proved: the "
-     "remaining fields of a route answer (steps, durations, counts, arrival time of arrival-time answers), queries outside those domains (active first-waiting cap), status equality for "
-     "accessibility, i.e. full translation invariance of the index-free calculation. Those are evaluated as a metamorphic relation on implementation and model for generated offsets (hour "
+     "remaining fields of a route answer (steps, durations, counts, arrival time of arrival-time answers; numberOfTransfers of a map entry; the reason of a failed accessibility request) and "
+     "queries outside those domains (active first-waiting cap), i.e. full translation invariance of the index-free calculation. Those are evaluated as a metamorphic relation on implementation and model for generated offsets (hour "
      "marks, 24:00, next to 0:00 / 32:00). " + _M + ".",
      "Lean 4 theorems (hour-index transparency for all calculations; translation invariance of the characterised values via the specifications) + metamorphic relation on implementation and model")
 _reg("C13", "PROOF (full, over the server model): Tr.C13_history_independent - the answer to a request after any sequence of earlier requests equals the answer of the "
